@@ -381,10 +381,25 @@ fn kid_type(ty: Option<ElementType>, k: &D) -> Option<ElementType> {
 }
 
 /// ancestor-closed assignment of the elements to `nfiles` files that splits only below splittable parents
-fn assign(d: &mut D, mask: u32, ty: Option<ElementType>, version: AutosarVersion, rng: &mut SplitMix64, stats: &mut (u64, u64)) {
+fn assign(d: &mut D, mask: u32, ty: Option<ElementType>, version: AutosarVersion, versions: &[u32], rng: &mut SplitMix64, stats: &mut (u64, u64)) {
     d.files = mask;
     let kinds: Vec<(bool, Option<ElementType>)> = d.kids.iter().map(|k| (splittable_child(ty, version, k), kid_type(ty, k))).collect();
-    for (k, (sp, kty)) in d.kids.iter_mut().zip(kinds) {
+    // files whose version knows the child element at all
+    let supported: Vec<u32> = d
+        .kids
+        .iter()
+        .map(|k| {
+            let mut m = 0u32;
+            for (f, v) in versions.iter().enumerate() {
+                let ok = ty.and_then(|t| ElementName::from_str(&k.name).ok().and_then(|n| t.find_sub_element(n, *v))).is_some();
+                if ok {
+                    m |= 1 << f;
+                }
+            }
+            m
+        })
+        .collect();
+    for ((k, (sp, kty)), sup) in d.kids.iter_mut().zip(kinds).zip(supported) {
         let bits: Vec<u32> = (0..8).filter(|b| mask & (1 << b) != 0).collect();
         let m = if sp && bits.len() > 1 {
             stats.0 += 1;
@@ -406,10 +421,12 @@ fn assign(d: &mut D, mask: u32, ty: Option<ElementType>, version: AutosarVersion
         } else {
             mask
         };
+        // a version-specific element below a splittable parent lives only in the files that know it
+        let m = if sp { m & sup } else { m };
         if m != mask {
             stats.1 += 1;
         }
-        assign(k, m, kty, version, rng, stats);
+        assign(k, m, kty, version, versions, rng, stats);
     }
 }
 
@@ -800,12 +817,34 @@ fn canon_diff(a: &Canon, b: &Canon) -> String {
 fn split_case(id: usize, rng: &mut SplitMix64, max_elements: usize, max_files: usize, mixed_versions: bool, stats: &mut BTreeMap<String, u64>) -> Case {
     let mut master = gen_master(rng, max_elements);
     let nfiles = 2 + rng.below(max_files as u64 - 1) as usize;
+    let uniform = if rng.below(4) == 0 { 0x80000u32 } else { 0x20000 };
     let versions: Vec<u32> = (0..nfiles)
-        .map(|_| if mixed_versions { *rng.pick(&[0x20000u32, 0x80000, 0x100000, 0x2000, 0x80, 0x4]) } else { 0x20000 })
+        .map(|_| if mixed_versions { *rng.pick(&[0x20000u32, 0x80000, 0x100000, 0x2000, 0x80, 0x4]) } else { uniform })
         .collect();
     let minv = AutosarVersion::from_val(*versions.iter().min().unwrap()).unwrap();
     let mut st = (0u64, 0u64);
-    assign(&mut master, (1u32 << nfiles) - 1, Some(ElementType::ROOT), minv, rng, &mut st);
+    if mixed_versions && rng.below(3) == 0 {
+        // a root-level element that exists only in newer versions (AUTOSAR is splittable)
+        master.kids.insert(0, D::new("FILE-INFO-COMMENT").kid(D::new("SDGS").kid(D::new("SDG").attr("GID", "info").kid(D::leaf("SD", "x").attr("GID", "k")))));
+        let mut next = 0;
+        master.number(&mut next);
+        *stats.entry("masters_with_version_specific_root_child".into()).or_insert(0) += 1;
+    }
+    assign(&mut master, (1u32 << nfiles) - 1, Some(ElementType::ROOT), minv, &versions, rng, &mut st);
+    if master.kids[0].name == "FILE-INFO-COMMENT" && master.kids[0].files != 0 && rng.below(2) == 0 {
+        // the packages live only in the files that do NOT have the version-specific root child
+        let rest = ((1u32 << nfiles) - 1) & !master.kids[0].files;
+        if rest != 0 {
+            fn restrict(d: &mut D, m: u32) {
+                d.files &= m;
+                for k in d.kids.iter_mut() {
+                    restrict(k, m);
+                }
+            }
+            restrict(&mut master.kids[1], rest);
+            *stats.entry("masters_root_child_and_packages_in_disjoint_files".into()).or_insert(0) += 1;
+        }
+    }
     *stats.entry("split_points".into()).or_insert(0) += st.0;
     *stats.entry("split_decisions_partial".into()).or_insert(0) += st.1;
     *stats.entry("master_elements".into()).or_insert(0) += master.count() as u64;
@@ -1263,6 +1302,7 @@ fn probe_main() {
 pub fn main(args: &[String]) {
     match args.first().map(|s| s.as_str()) {
         Some("probe") => probe_main(),
+        Some("probe2") => probe2_main(),
         Some("gen") => gen_main(&args[1..]),
         Some("oracle") => oracle_main(&args[1..]),
         Some("c11") => c11_main(&args[1..]),
@@ -1270,6 +1310,29 @@ pub fn main(args: &[String]) {
         _ => {
             eprintln!("usage: avh merge probe|gen|oracle|c11|min ...");
             std::process::exit(2)
+        }
+    }
+}
+
+pub fn probe2_main() {
+    for (name, et, mask, _) in ElementType::ROOT.sub_element_spec_iter() {
+        println!("AUTOSAR/{} mask={:x} split={:x} mode={:?}", name.to_str(), mask, et.splittable(), et.content_mode());
+    }
+    let mut ty = ElementType::ROOT;
+    for n in ["AR-PACKAGES", "AR-PACKAGE"] {
+        ty = ty.find_sub_element(ElementName::from_str(n).unwrap(), u32::MAX).unwrap().0;
+    }
+    for (name, et, mask, _) in ty.sub_element_spec_iter() {
+        println!("AR-PACKAGE/{} mask={:x} split={:x}", name.to_str(), mask, et.splittable());
+    }
+    let els = ty.find_sub_element(ElementName::Elements, u32::MAX).unwrap().0;
+    for kind in ["SYSTEM", "I-SIGNAL", "ECUC-CONTAINER-VALUE", "APPLICATION-SW-COMPONENT-TYPE", "SENDER-RECEIVER-INTERFACE", "SYSTEM-SIGNAL"] {
+        if let Some((t, _)) = els.find_sub_element(ElementName::from_str(kind).unwrap(), u32::MAX) {
+            for (name, et, mask, _) in t.sub_element_spec_iter() {
+                if mask != 0x1fffff {
+                    println!("{}/{} mask={:x} split={:x} mode={:?}", kind, name.to_str(), mask, et.splittable(), et.content_mode());
+                }
+            }
         }
     }
 }
